@@ -78,7 +78,25 @@ func c15(c *core.Ctx, r *core.Report) {
 
 	// ---- R1 loader loop: decision table of every Configure implementation's Initialize (see R4 for the field)
 	sites := c.CallSites(func(com *ssa.CallCommon) bool { return core.IsInvoke(com, ro.LoaderLoad) })
-	r.Exactly("C15.R1", "invoke sites of Loader.LoadConfig", len(sites), 1)
+	r.Floor("C15.R1", "invoke sites of Loader.LoadConfig", len(sites), 1)
+	// every site that asks a loader belongs to a start routine the load table interprets (Initialize with whatever it
+	// calls), or is a loader's own LoadConfig handing the question on to the loader it wraps
+	inLoad := map[*ssa.Function]bool{}
+	for _, T := range c.Implementors(c.Iface("configure", "Configure")) {
+		if initFn := c.DeclaredMethod(T, "Initialize"); initFn != nil {
+			reachesCall(initFn, func(*ssa.CallCommon) bool { return false }, inLoad)
+		}
+	}
+	ldIface := c.Iface("configure", "Loader")
+	for _, s := range sites {
+		fn := core.TopLevel(s.Parent())
+		ok := inLoad[fn] || inLoad[s.Parent()]
+		if !ok && fn.Signature.Recv() != nil && fn.Name() == "LoadConfig" && ldIface != nil {
+			rt := fn.Signature.Recv().Type()
+			ok = types.Implements(rt, ldIface) || types.Implements(types.NewPointer(rt), ldIface)
+		}
+		r.Check(ok, "C15.R1", "load-site@"+core.FnName(s.Parent()), c.Pos(s.Pos()), "a loader is asked for its configuration only by the start routine the load table decides (or by a loader that forwards to the one it wraps)")
+	}
 
 	// ---- R2 binder implementations merge
 	bimpls := c.Implementors(c.Iface("configure", "Binder"))
